@@ -478,6 +478,54 @@ fn cmd_scale(a: &Args) {
 			sink.report(v, &|| checks::replay_record(&beh, &built, o.seed, o.plan));
 		}
 	}
+	// absences across the word and capacity boundaries of the validity bitmaps (rows 63/64/65, 127/128, 1023/1024/1025,
+	// 2047/2048), a character absent from the first rows, one absent from row 2100 to the end, a follower absent for a stretch
+	if a.get("only") != Some("big") {
+		for (i, (reg, ver, occ)) in [("C", [3u8, 16u8, 0u8], vec!["ic", "single", "none", "single"]), ("B", [2, 2, 0], vec!["single", "ic", "none", "none"]), ("A", [1, 4, 0], vec!["single", "single", "ic", "none"]), ("C", [3, 5, 0], vec!["single", "none", "single", "none"])]
+			.into_iter()
+			.enumerate()
+		{
+			let n = 2200usize;
+			let ids: Vec<i64> = (0..n as i64).map(|k| -123 + k).collect();
+			let nchars = occ.iter().map(|o| match *o { "none" => 0, "ic" => 2, _ => 1 }).sum::<usize>();
+			let absent = |f: usize, c: usize| -> bool {
+				if c == 0 {
+					return false; // (one character is always there: before 2.2 a frame needs a Pre event)
+				}
+				if c == 1 {
+					return (60..70).contains(&f) || (1020..1030).contains(&f) || [0usize, 63, 64, 65, 127, 128, 1023, 1024, 1025, 2047, 2048].contains(&(f + i));
+				}
+				if c == nchars - 1 {
+					return f < 5 || f >= 2100;
+				}
+				f % 97 == 3
+			};
+			let beh = fields::simple_beh_absent(reg, &occ, &ids, if reg == "C" { 1 } else { 0 }, 0, &absent);
+			let mut o = GenOpts::new(seed ^ (0xAB5E + i as u64), ver);
+			o.plan = 1;
+			let built = gen::build_beh(&db, &beh, &o);
+			sink.count(fnv(&built.bytes), true);
+			sink.sample(|| json!({"regime": reg, "occ": occ, "version": ver, "frames": n, "absences": "rows 0, 63-65, 127-128, 1023-1025, 2047-2048, stretches 60-69 and 1020-1029, first 5 rows, rows 2100 to the end", "file_len": built.bytes.len()}));
+			let mut viols = vec![];
+			item_guard("scale", || {
+				let ctx = checks::Ctx::new(&db, &beh, &built);
+				for c in &checks {
+					match c.as_str() {
+						"c01" => ctx.c01_roundtrip(&mut viols),
+						"c04" => ctx.c04_oneshot(&mut viols),
+						"rows" => ctx.rowview(&mut viols),
+						"arrow" => ctx.arrow(&mut viols),
+						"slpp" => ctx.slpp_roundtrip(&[real::Comp::all()[i % 3]], i % 2 == 0, &mut viols),
+						"inc12" => {}
+						other => panic!("unknown check {}", other),
+					}
+				}
+			});
+			for v in &viols {
+				sink.report(v, &|| json!({"scale_absent_shape": i, "regime": reg, "occ": occ, "version": ver, "frames": n, "seed": o.seed}));
+			}
+		}
+	}
 	let only: Option<usize> = if a.get("only") == Some("small") { Some(usize::MAX) } else { None };
 	for (i, (reg, ver, occ, nf, ni, ng)) in shapes.iter().enumerate() {
 		if only.map_or(false, |o| o != i) {
